@@ -48,7 +48,7 @@ ASSUMPTIONS = [
     "localized names are used only if the language itself reads '15 <name> 2015' as that month in a heuristic parse (single-meaning names)",
     "pytz gives the local fields of the simulated instant (independent of the C library the code under test uses)",
 ]
-EXPECTED_PROBES = {"relative_base_given": 1, "yearless_day_of_year": 1, "several_matching_formats": 1, "rendered_time_on_a_dst_edge_of_the_process_zone": 1, "clock_year_used": 1, "clock_day_used": 1, "clock_month_used": 1, "localized": 1, "tick_straddle": 1, "utc_local_date_differ": 1}
+EXPECTED_PROBES = {"prefer_dates_from_given": 1, "relative_base_given": 1, "yearless_day_of_year": 1, "several_matching_formats": 1, "rendered_time_on_a_dst_edge_of_the_process_zone": 1, "clock_year_used": 1, "clock_day_used": 1, "clock_month_used": 1, "localized": 1, "tick_straddle": 1, "utc_local_date_differ": 1}
 
 
 def fields_of(fmt):
@@ -332,6 +332,10 @@ def gen_case(rng, ctx):
         prefs["PREFER_DAY_OF_MONTH"] = rng.choice(["first", "last", "current"])
     if rng.random() < 0.7:
         prefs["PREFER_MONTH_OF_YEAR"] = rng.choice(["first", "last", "current"])
+    if rng.random() < 0.15:
+        # the free-form parser's preference for past / future dates is not one of the preferences a
+        # given format is completed by: the missing year is the current year
+        prefs["PREFER_DATES_FROM"] = rng.choice(["past", "future"])
     lang = None
     kw = {}
     if localized:
@@ -416,6 +420,8 @@ def eval_case(case):
     d = dt.datetime(*case["d"])
     settings = dict(case["prefs"]) or None
     stats = {}
+    if "PREFER_DATES_FROM" in case["prefs"]:
+        stats["prefer_dates_from_given"] = 1
     if case.get("base") is not None:
         settings = dict(settings or {}, RELATIVE_BASE=dec_value(case["base"]))
         stats["relative_base_given"] = 1
